@@ -102,11 +102,24 @@ def go_req(rng):
     return (b"v" if rng.random() < 0.95 else b"") + s
 
 
+def recase(rng, label):
+    """NuGet compares labels without regard to case and deps.dev lower-cases them when it prints"""
+    r = rng.random()
+    if r < 0.4:
+        return label.upper()
+    if r < 0.7:
+        return label.title()
+    return bytes(ch ^ 0x20 if (65 <= ch <= 90 or 97 <= ch <= 122) and rng.random() < 0.5 else ch for ch in label)
+
+
 def nuget_version(rng):
-    n = rng.choice([1, 2, 3, 3, 3, 4])
+    n = rng.choice([1, 2, 3, 3, 3, 4, 4])
     s = core(rng, n)
-    if rng.random() < 0.25:
-        s += b"-" + pick(rng, PRE)
+    if rng.random() < 0.3:
+        label = pick(rng, PRE)
+        if rng.random() < 0.4:
+            label = recase(rng, label)
+        s += b"-" + label
     return s
 
 
@@ -117,7 +130,8 @@ def nuget_req(rng):
         return v
     if r < 0.4:
         # floating versions
-        return pick(rng, [b"*", b"1.*", b"1.2.*", b"1.0.0-*", b"1.0.0-beta*", b"1.*-*", b"2.1.*-rc*", b"1.2.3.*"])
+        return pick(rng, [b"*", b"1.*", b"1.2.*", b"1.0.0-*", b"1.0.0-beta*", b"1.*-*", b"2.1.*-rc*", b"1.2.3.*",
+                          b"1.0.0-Beta*", b"2.1.*-RC*", b"1.2.3.4-*", b"1.2.3.4-Alpha*", b"0.0.0.1-*"])
     lo = nuget_version(rng) if rng.random() < 0.8 else b""
     hi = nuget_version(rng) if rng.random() < 0.8 else b""
     lb = pick(rng, [b"[", b"("])
@@ -336,6 +350,8 @@ def bounds_of(text):
         pre = m.group(5)
         if pre is not None and not re.fullmatch(rb"[0-9A-Za-z-]+(\.[0-9A-Za-z-]+)*", pre):
             pre = None
+        if m.group(4) is not None:
+            nums.append(int(m.group(4)))
         out.append((tuple(nums), pre))
     return out
 
@@ -369,6 +385,18 @@ def probes(rng, sysi, texts, n_random=4, cap=28):
         bs += bounds_of(t)
     rng.shuffle(bs)
     for (nums, pre) in bs[:6]:
+        if sysi == 5:
+            # NuGet: four-number versions and labels in another case
+            n4 = (list(nums) + [0])[:4]
+            add(fmt(sysi, n4))
+            add(fmt(sysi, n4[:3] + [n4[3] + 1]))
+            add(fmt(sysi, n4[:3] + [1], b"Alpha"))
+            if pre:
+                add(fmt(sysi, nums, pre.upper()))
+                add(fmt(sysi, nums, pre.title() + b".0"))
+            else:
+                add(fmt(sysi, nums, b"RC.1"))
+        nums = nums[:3]
         add(fmt(sysi, nums, None))
         if pre and sysi not in (3, 6):
             add(fmt(sysi, nums, pre))
